@@ -65,6 +65,8 @@ def gen_rich_rule(rng):
                              0],
                     interval=rng.choice([1, 1, 2]),
                     count=rng.choice([3, 10, 11, 40]), cache=False)
+        if rng.random() < 0.4:
+            spec = RL.gen_terminal_rule(rng, cache=False)
     elif r < 0.12:
         # the first representable instants
         spec["dtstart"] = [1, 1, 1, 0, 0, 0]
